@@ -12,6 +12,7 @@ SIMHDR := $(wildcard sim/*.h)
 
 ASAN_CHECKS := c33 c25 c13 c18 c19 c20 c23 c32
 ASAN_BINS := $(patsubst %,$(B)/bin/%,$(ASAN_CHECKS))
+SIM_SRC_c18 := sim/alloc_seam.cpp
 SIM_SRC_c19 := sim/alloc_seam.cpp
 SIM_SRC_c20 := sim/alloc_seam.cpp
 SIM_SRC_c23 := sim/rand_seam.cpp
